@@ -13,6 +13,8 @@ import (
 type Eth1DataVotes []common.Eth1Data
 
 func (a *Eth1DataVotes) Deserialize(spec *common.Spec, dr *codec.DecodingReader) error {
+	// decode into a recycled object: drop what it holds (dr.List appends)
+	*a = (*a)[:0]
 	return dr.List(func() codec.Deserializable {
 		i := len(*a)
 		*a = append(*a, common.Eth1Data{})
